@@ -437,14 +437,18 @@ theorem gru_instnorm_fails_single_pixel (repl : Bool) (layers : Nat) (s : Shape)
   simp only [gru, List.append_assoc]
   exact run_append_err (gruLayers_instnorm_fails repl layers s stk tr hs h1)
 
-/-- MWCNN below its minimum (`mwcnn_min_size`: axes `≤ 2^(S−2)` for `S ≥ 2` scales): the reflect pad of a length-1 axis
-raises.  FULL STATEMENT: `∀ S s, (∀ n ∈ s, 1 ≤ n) → (∃ n ∈ s, mwAxisOk S n = false) → ∃ e, run (mwcnn MwP.std S) ⟨s, stk, tr⟩ =
-.error e`.  PROVED HERE: all 2-D sizes up to 35 × 35 and `S ≤ 5` (kernel evaluation); the general induction over the scales
-for the failing direction is missing. -/
-theorem mwcnn_fails_below_min_partial : ∀ S ∈ [1, 2, 3, 4, 5], ∀ h ∈ List.range 36, ∀ w ∈ List.range 36,
-    1 ≤ h → 1 ≤ w → (mwAxisOk S h && mwAxisOk S w) = false →
-      (match run (mwcnn MwP.std S) ⟨[h, w], [], []⟩ with | .error _ => true | .ok _ => false) = true := by
-  decide +kernel
+/-- **MWCNN below its minimum** (`mwcnn_min_size`: some axis `≤ 2^(S−2)` for `S ≥ 2` scales, or a length-1 axis for one
+scale): the network *raises* (the reflect pad of a length-1 axis), for every number of scales and every rank — it never returns
+a padded or cropped size.  (Converse of `mwcnn_shape_id`: a successful run admits every axis.) -/
+theorem mwcnn_fails_below_min (S : Nat) (s : Shape) (stk tr : List Shape) (hs : ∀ n ∈ s, 1 ≤ n)
+    (h : ∃ n ∈ s, mwAxisOk S n = false) : ∃ e, run (mwcnn MwP.std S) ⟨s, stk, tr⟩ = .error e := mwcnn_fails S s stk tr hs h
+
+/-- … hence admissibility is *exactly* success -/
+theorem mwcnn_succeeds_iff (S : Nat) (s : Shape) (hs : ∀ n ∈ s, 1 ≤ n) :
+    (∃ st, run (mwcnn MwP.std S) ⟨s, [], []⟩ = .ok st) ↔ ∀ n ∈ s, mwAxisOk S n = true := by
+  constructor
+  · rintro ⟨st, h⟩; exact mwcnn_conv S s [] [] st hs h
+  · intro h; obtain ⟨t, ht⟩ := mwcnn_shape_id S s [] [] h; exact ⟨_, ht⟩
 
 /-! ## full shapes `(N, C, *spatial)`: the channel arithmetic of the denoisers
 
